@@ -362,8 +362,9 @@ type resAd struct {
 	add    func(v uint64)
 	remove func()
 	get    func() (uint64, bool)
-	has    func() bool // Resource[T].Has
-	hasID  func() bool // Resources.Has (ID-based)
+	has    func() bool   // Resource[T].Has
+	hasID  func() bool   // Resources.Has (ID-based)
+	reg    func() string // registry functions agree about this type ("" if so)
 }
 
 type (
@@ -412,6 +413,26 @@ func mkRes[T any](w *ecs.World, put func(*T, uint64), get func(*T) uint64) resAd
 		},
 		has:   func() bool { return r.Has() },
 		hasID: func() bool { return w.Resources().Has(ecs.ResourceID[T](w)) },
+		reg: func() string {
+			id := ecs.ResourceID[T](w)
+			tp := reflect.TypeFor[T]()
+			if id2 := ecs.ResourceTypeID(w, tp); id2 != id {
+				return fmt.Sprintf("ResourceTypeID=%v but ResourceID=%v for %v", id2, id, tp)
+			}
+			if got, ok := ecs.ResourceType(w, id); !ok || got != tp {
+				return fmt.Sprintf("ResourceType(%v)=(%v,%v), expected %v", id, got, ok, tp)
+			}
+			n := 0
+			for _, x := range ecs.ResourceIDs(w) {
+				if x == id {
+					n++
+				}
+			}
+			if n != 1 {
+				return fmt.Sprintf("ResourceIDs lists %v %d times", id, n)
+			}
+			return ""
+		},
 	}
 }
 
@@ -478,10 +499,24 @@ func (s *Sim) opResource(op *Op) {
 		rr := s.res(j)
 		want, ok := s.M.Res[j]
 		got, gok := rr.get()
+		if msg := rr.reg(); msg != "" {
+			s.violate("C18", "reg.stable", "resource", false, "resource %d: %s", j, msg)
+			return
+		}
 		if rr.has() != ok || rr.hasID() != ok || gok != ok || (ok && got != want) {
 			s.violate("C18", "res.map", "state", false, "resource %d: Has=%v Get=(%#x,%v), expected present=%v value=%#x", j, rr.has(), got, gok, ok, want)
 			return
 		}
+	}
+	nreg := 0
+	for j := range s.resMaps {
+		if s.resMaps[j].add != nil {
+			nreg++
+		}
+	}
+	nreg += len(s.resPads)
+	if got := len(ecs.ResourceIDs(s.W)); got != nreg {
+		s.violate("C18", "reg.stable", "resource_count", false, "ResourceIDs lists %d resource types, %d were registered", got, nreg)
 	}
 	s.tracef("%d Resource %s %d", s.OpIdx, op.M, i)
 }
